@@ -37,6 +37,7 @@ type rw struct {
 	used   bool
 	pk     *pkgFacts
 	params map[types.Object]bool
+	alias  map[types.Object]aliasInfo
 	events int
 }
 
@@ -148,6 +149,52 @@ func writeTargets(info *types.Info, n ast.Node, f func(e ast.Expr)) {
 	})
 }
 
+// aliasInfo: a local variable assigned directly from a reference-typed field of a receiver/parameter
+// (x := s.buf) aliases that field: writes through x are writes to the field.
+type aliasInfo struct {
+	base  *ast.Ident
+	field *ast.SelectorExpr
+}
+
+func collectAliases(info *types.Info, body ast.Node, params map[types.Object]bool) map[types.Object]aliasInfo {
+	al := map[types.Object]aliasInfo{}
+	ast.Inspect(body, func(c ast.Node) bool {
+		as, ok := c.(*ast.AssignStmt)
+		if !ok || len(as.Lhs) != len(as.Rhs) {
+			return true
+		}
+		for i, l := range as.Lhs {
+			id, ok := l.(*ast.Ident)
+			if !ok {
+				continue
+			}
+			sel, ok := as.Rhs[i].(*ast.SelectorExpr)
+			if !ok {
+				continue
+			}
+			base, ok := sel.X.(*ast.Ident)
+			if !ok || !params[info.Uses[base]] {
+				continue
+			}
+			if s := info.Selections[sel]; s == nil || s.Kind() != types.FieldVal {
+				continue
+			}
+			switch info.TypeOf(sel).Underlying().(type) {
+			case *types.Slice, *types.Map, *types.Pointer:
+				o := info.Defs[id]
+				if o == nil {
+					o = info.Uses[id]
+				}
+				if o != nil {
+					al[o] = aliasInfo{base, sel}
+				}
+			}
+		}
+		return true
+	})
+	return al
+}
+
 func collectFacts(info *types.Info, files []*ast.File, pkg *types.Package) *pkgFacts {
 	pf := &pkgFacts{mutVars: map[types.Object]bool{}, mutFields: map[types.Object]bool{}, pkg: pkg}
 	for _, f := range files {
@@ -157,6 +204,7 @@ func collectFacts(info *types.Info, files []*ast.File, pkg *types.Package) *pkgF
 				continue
 			}
 			params := funcParams(info, fd.Recv, fd.Type)
+			aliases := collectAliases(info, fd.Body, params)
 			writeTargets(info, fd.Body, func(e ast.Expr) {
 				id, first := rootOf(info, e)
 				if id == nil {
@@ -164,6 +212,13 @@ func collectFacts(info *types.Info, files []*ast.File, pkg *types.Package) *pkgF
 				}
 				o := info.Uses[id]
 				if o == nil {
+					return
+				}
+				if a, ok := aliases[o]; ok && (first != nil || e != ast.Expr(id)) {
+					// a write through a local alias of a field (element / pointee write, not re-binding the local)
+					if sel := info.Selections[a.field]; sel != nil {
+						pf.mutFields[sel.Obj()] = true
+					}
 					return
 				}
 				if isPkgVar(o) {
@@ -238,6 +293,16 @@ func (r *rw) accesses(st ast.Stmt) string {
 		writeTargets(r.info, h, func(e ast.Expr) {
 			id, first := rootOf(r.info, e)
 			if id == nil {
+				return
+			}
+			if a, ok := r.alias[r.info.Uses[id]]; ok && (first != nil || e != ast.Expr(id)) {
+				if sel := r.info.Selections[a.field]; sel != nil && r.pk.mutFields[sel.Obj()] {
+					tn := "?"
+					if nt := namedOf(r.info.Uses[a.base].Type()); nt != nil {
+						tn = nt.Obj().Name()
+					}
+					note("&"+a.base.Name+"."+a.field.Sel.Name, tn+"."+a.field.Sel.Name, true)
+				}
 				return
 			}
 			if first != nil {
@@ -598,8 +663,12 @@ func main() {
 					b.WriteString(txt)
 				} else {
 					r.params = nil
+					r.alias = nil
 					if fd, ok := d.(*ast.FuncDecl); ok && facts != nil {
 						r.params = funcParams(info, fd.Recv, fd.Type)
+						if fd.Body != nil {
+							r.alias = collectAliases(info, fd.Body, r.params)
+						}
 					}
 					b.WriteString(r.render(d))
 				}
